@@ -30,7 +30,8 @@ class Ref:
     def __init__(self, uid_base, keeps_keywords):
         self.boxes = [[], [], []]
         self.next = [uid_base + 1] * 3
-        self.sel = None          # (box, readonly)
+        self.sel = None          # (box, readonly) of the session whose command is being applied
+        self.sels = {}
         self.kk = keeps_keywords
 
     def msgs(self):
@@ -46,6 +47,12 @@ class Ref:
         return [m for k, m in enumerate(ms, 1) if k in want]
 
     def step(self, op):
+        self.sel = self.sels.get(op[1])
+        r = self._step(op)
+        self.sels[op[1]] = self.sel
+        return r
+
+    def _step(self, op):
         """returns (status, expected own results or None)"""
         k = op[0]
         if k == 'select':
@@ -130,10 +137,12 @@ class Ref:
         return [(m[0], tuple(sorted(m[1])), m[2], m[3]) for m in self.boxes[b]]
 
 
-def reference_monitor(part, backend, prog, canon, dumps, case):
+def reference_monitor(part, backend, prog, canon, dumps, case, multi=False):
     ref = Ref(100 if backend == 'dict' else 0, backend == 'dict')
     for j, (op, c) in enumerate(zip(prog, canon)):
         status, expect = ref.step(op)
+        if multi:
+            expect = None       # several sessions: only the mailbox contents after every command are compared (views differ between sessions)
         if c[0] != status:
             part.violation('monitor', f'{backend}: command #{j} {op} answered {c[0]}, the reference model says {status}', dict(case, at=j),
                            signature='ref-status')
@@ -193,22 +202,61 @@ def nontrivial(prog):
 def run_cases(part, cases):
     done = {'dict': [], 'maildir': [], 'maildir-fs': []}
     for backend, prog in cases:
-        with guarded(part, f'C10 run {backend}', dict(backend=backend, nsess=1, program=prog)):
+        nsess = 1 + max(op[1] for op in prog)
+        with guarded(part, f'C10 run {backend}', dict(backend=backend, nsess=nsess, program=prog)):
             dumps = []
-            ext, outs, final = asyncio.run(l3.run_real(1, prog, backend=backend, dump_each=dumps, dumps=(backend == 'dict')))
-            done[backend].append((1, ext, outs, final, dumps))
+            ext, outs, final = asyncio.run(l3.run_real(nsess, prog, backend=backend, dump_each=dumps, dumps=(backend == 'dict')))
+            done[backend].append((nsess, ext, outs, final, dumps))
     # Lean correspondence (dict only: the Server model is the dict backend)
     l3.judge(part, [(n, e, o, f) for (n, e, o, f, d) in done['dict']], 'C10')
     for backend, lst in done.items():
         for (n, ext, outs, final, dumps) in lst:
-            canon, errors, nt, shadows = l3.analyse(1, ext, outs)
-            case = dict(backend=backend, nsess=1, program=ext)
+            canon, errors, nt, shadows = l3.analyse(n, ext, outs)
+            case = dict(backend=backend, nsess=n, program=ext)
             if backend != 'dict':
                 part.case(key=backend + repr(ext), nontrivial=nontrivial(ext), sample=dict(backend=backend, program=[' '.join(map(str, o)) for o in ext[:10]]))
                 for e in errors:
                     part.violation('monitor', f'{backend}: {e}', case, signature='shadow')
-            reference_monitor(part, backend, ext, canon, dumps, case)
-            part.stat('backend:' + backend)
+            reference_monitor(part, backend, ext, canon, dumps, case, multi=n > 1)
+            part.stat('backend:' + backend + (':two-sessions' if n > 1 else ''))
+
+
+def gen_two_sessions(r, backend, length):
+    """two sessions on one mailbox, addressing by explicit UIDs only (no `*`, no sequence numbers), so that the plain reference model
+    needs no notion of a view: a session's copy of a message may be *stale* (the other session changed its flags since) but it always
+    knows which messages exist — after an APPEND the other session runs NOOP before its next command"""
+    base = 100 if backend == 'dict' else 0
+    prog = [['select', 0, 0, False], ['select', 1, 0, False]]
+    n = 0
+    cid = 1
+    for _ in range(r.randint(2, 4)):
+        prog.append(['append', 0, 0, sorted(r.sample([0, 1, 2, 3, 4], r.randint(0, 2))), cid, r.randint(0, 5), 0])
+        n += 1
+        cid += 1
+    prog += [['noop', 0], ['noop', 1]]
+
+    def uset():
+        us = r.sample(range(base + 1, base + n + 1), r.randint(1, min(3, n)))
+        return ','.join(f'{u}:{u}' if r.random() < 0.15 else str(u) for u in us)
+    for _ in range(length):
+        i = r.randrange(2)
+        k = r.choice(['store', 'store', 'store', 'store', 'fetch', 'fetch', 'fetch', 'uidexpunge', 'copy', 'append', 'noop'])
+        if k == 'store':
+            prog.append(['store', i, True, uset(), r.choice([0, 1, 1, 2, 2]), sorted(r.sample([0, 1, 2, 3, 4], r.randint(0, 2))), r.random() < 0.3])
+        elif k == 'fetch':
+            prog.append(['fetch', i, True, uset(), r.choice([['BODY[]'], ['BODY[]'], ['RFC822'], ['BODY.PEEK[]'], ['FLAGS'], ['FLAGS', 'BODY[]']])])
+        elif k == 'uidexpunge':
+            prog.append(['expunge', i, uset()])
+        elif k == 'copy':
+            prog.append(['copy', i, r.random() < 0.3, True, uset(), r.choice([1, 2]), 0])
+        elif k == 'append':
+            prog.append(['append', i, 0, sorted(r.sample([0, 1, 2, 3, 4], r.randint(0, 2))), cid, r.randint(0, 5), 0])
+            prog.append(['noop', 1 - i])
+            n += 1
+            cid += 1
+        else:
+            prog.append(['noop', i])
+    return prog
 
 
 def worker(job):
@@ -218,7 +266,10 @@ def worker(job):
     cases = [(c['backend'], c['program']) for c in corpus]
     for k in range(ncases):
         backend = ['dict', 'dict', 'maildir', 'maildir-fs'][k % 4]
-        prog = l3.gen_program(r, 1, r.randint(4, maxlen), PROFILE, uid_base=100 if backend == 'dict' else 0)
+        if k % 3 == 2:
+            prog = gen_two_sessions(r, backend, r.randint(4, maxlen))
+        else:
+            prog = l3.gen_program(r, 1, r.randint(4, maxlen), PROFILE, uid_base=100 if backend == 'dict' else 0)
         cases.append((backend, prog))
     run_cases(part, cases)
     l1_seq(part, random.Random(seed + 3), ncases * 20)
@@ -262,7 +313,8 @@ CORPUS = [
 
 def run(ctx):
     ctx.rep.rule = RULE
-    ctx.rep.assumptions = ['single session (the view equals the mailbox): the multi-session case is C01/C02',
+    ctx.rep.assumptions = ['single session (the view equals the mailbox): what a session is *told* in the multi-session case is C01/C02; a third of the programs run two '
+                           'sessions addressing by explicit UIDs, for which only the mailbox contents after every command are compared',
                            'dict keeps keywords given to APPEND, maildir drops them (neither offers keywords in PERMANENTFLAGS)']
     nw = ctx.workers
     ncases = ctx.budget(24, 400)
